@@ -1323,3 +1323,77 @@ impl fmt::Debug for FmtBitset {
         set.finish()
     }
 }
+
+/// Verification hooks: forwarders to the private per-subscriber-filter state.
+#[cfg(tracing_verif)]
+#[doc(hidden)]
+#[allow(missing_docs, missing_debug_implementations, unreachable_pub)]
+pub mod __verif_filter {
+    use super::{FilterId, FilterMap, FilterState, FILTERING};
+    use tracing_core::Interest;
+
+    /// `FilterId::new(bit)`
+    pub fn id_new(bit: u8) -> FilterId {
+        FilterId::new(bit)
+    }
+    /// `FilterId::none()`
+    pub fn id_none() -> FilterId {
+        FilterId::none()
+    }
+    /// `FilterId::disabled()`
+    pub fn id_disabled() -> FilterId {
+        FilterId::disabled()
+    }
+    /// `FilterId::and`
+    pub fn id_and(a: FilterId, b: FilterId) -> FilterId {
+        a.and(b)
+    }
+    pub fn id_bits(a: FilterId) -> u64 {
+        a.0
+    }
+
+    /// bits of the calling (simulated) thread's `FILTERING.enabled`
+    pub fn bits() -> u64 {
+        FILTERING.with(|f| f.enabled.get().bits)
+    }
+    /// overwrite the bitmap (arbitrary pre-state) and reset the debug pass counters accordingly
+    pub fn set_bits(bits: u64, in_pass: usize) {
+        FILTERING.with(|f| {
+            f.enabled.set(FilterMap { bits });
+            #[cfg(debug_assertions)]
+            f.counters.in_filter_pass.set(in_pass);
+            let _ = in_pass;
+        })
+    }
+    pub fn set(id: FilterId, enabled: bool) {
+        FILTERING.with(|f| f.set(id, enabled))
+    }
+    pub fn and(id: FilterId, f: impl FnOnce() -> bool) -> bool {
+        FILTERING.with(|s| s.and(id, f))
+    }
+    pub fn did_enable(id: FilterId, f: impl FnOnce()) {
+        FILTERING.with(|s| s.did_enable(id, f))
+    }
+    pub fn clear_enabled() {
+        FilterState::clear_enabled()
+    }
+    pub fn event_enabled() -> bool {
+        FilterState::event_enabled()
+    }
+    pub fn add_interest(i: Interest) {
+        FILTERING.with(|s| s.add_interest(i))
+    }
+    pub fn take_interest() -> Option<Interest> {
+        FilterState::take_interest()
+    }
+    /// `FilterMap::{set, is_enabled, any_enabled}` on a raw bitmap
+    pub fn map_set(bits: u64, id: FilterId, enabled: bool) -> u64 {
+        FilterMap { bits }.set(id, enabled).bits
+    }
+    pub fn map_is_enabled(bits: u64, id: FilterId) -> bool {
+        FilterMap { bits }.is_enabled(id)
+    }
+    pub fn map_any_enabled(bits: u64) -> bool {
+        FilterMap { bits }.any_enabled()
+    }
+}
